@@ -41,6 +41,35 @@ thread_local! {
     static EXACT_KEY: Cell<bool> = const { Cell::new(false) };
     static CURRENT_INPUT: Cell<Option<LayoutInput>> = const { Cell::new(None) };
     static EVENTS: RefCell<Option<Vec<Event>>> = const { RefCell::new(None) };
+    static QUERY_COUNT: Cell<u64> = const { Cell::new(0) };
+    static QUERY_LIMIT: Cell<u64> = const { Cell::new(u64::MAX) };
+}
+
+/// Count one `compute_cached_layout` call; panics once the limit set by [`set_query_limit`] is exceeded
+/// (lets a test harness stop a runaway layout pass)
+pub fn bump_query() {
+    let n = QUERY_COUNT.with(|c| {
+        c.set(c.get() + 1);
+        c.get()
+    });
+    if n > QUERY_LIMIT.with(|c| c.get()) {
+        panic!("taffy_verif: query limit exceeded");
+    }
+}
+
+/// Number of `compute_cached_layout` calls since the last [`reset_queries`]
+pub fn queries() -> u64 {
+    QUERY_COUNT.with(|c| c.get())
+}
+
+/// Reset the query counter
+pub fn reset_queries() {
+    QUERY_COUNT.with(|c| c.set(0));
+}
+
+/// Set the query limit (`u64::MAX` = none)
+pub fn set_query_limit(limit: u64) {
+    QUERY_LIMIT.with(|c| c.set(limit));
 }
 
 /// Switch exact-key mode on or off (per thread)
